@@ -86,7 +86,9 @@ class IPv4FlowSpec(NLRI):
         for type_tmp in [bgp_cons.BGPNLRI_FSPEC_IP_PROTO, bgp_cons.BGPNLRI_FSPEC_PORT,
                          bgp_cons.BGPNLRI_FSPEC_DST_PORT, bgp_cons.BGPNLRI_FSPEC_SRC_PORT,
                          bgp_cons.BGPNLRI_FSPEC_ICMP_TP, bgp_cons.BGPNLRI_FSPEC_ICMP_CD,
-                         bgp_cons.BGPNLRI_FSPEC_PCK_LEN, bgp_cons.BGPNLRI_FSPEC_DSCP]:
+                         bgp_cons.BGPNLRI_FSPEC_TCP_FLAGS,
+                         bgp_cons.BGPNLRI_FSPEC_PCK_LEN, bgp_cons.BGPNLRI_FSPEC_DSCP,
+                         bgp_cons.BGPNLRI_FSPEC_FRAGMENT]:
             if not data.get(type_tmp):
                 continue
 
